@@ -137,6 +137,10 @@ func (p *parser) accessIdent(pos int, id string) error {
 		if fd.IsMap() && (id == "key" || id == "value") {
 			return fmt.Errorf("%smap internal field %q may not be traversed", p.showState(pos), id)
 		}
+		// A repeated field holds a list, not a message: its elements have to be indexed first.
+		if fd.IsList() {
+			return fmt.Errorf("%srepeated field %q needs an index before field %q", p.showState(pos), fd.Name(), id)
+		}
 		m = fd.Message()
 	}
 	md, ok := m.(protoreflect.MessageDescriptor)
